@@ -22,6 +22,11 @@ TEACH = [
     ["create table db.t1 as select s1.c1 as c9, s2.c3 from db.s1 s1 join db.s2 s2 on s1.k = s2.k", "insert into db.u select c9 from db.t1 join db.s2 on 1 = 1"],
     ["create table db.t1 as select * from db.s1", "create table db.t2 as select * from db.t1", "insert into db.u select * from db.t2"],
     ["create table t1 as select c1 from db.s1", "insert into u select * from t1"],
+    # the same table written more than once in one run (session definition replaced), then consumed
+    ["create table db.t1 as select c1, c2 from db.s1", "insert into db.t1 select c3 as c1, k as c2 from db.s2", "insert into db.u select * from db.t1"],
+    ["create table db.t2 as select c1 from db.s1", "create view db.t2 as select c2, k from db.s1", "insert into db.t2 select c3, k from db.s2"],
+    # a table the provider already knows is rebuilt by the script
+    ["create table db.zz as select c1 as q2, c2 as q3 from db.s1", "insert into db.u select * from db.zz"],
 ]
 PROBES = [
     "insert into db.u select * from db.t1",
@@ -32,6 +37,9 @@ PROBES = [
     "select * from db.t1",
     "insert into u select * from t1",
     "insert into db.u select * from db.s1 join db.t1 on 1 = 1",
+    "insert into db.u select * from db.t2",
+    "insert into db.u select * from db.zz",
+    "insert into db.u select q from db.zz join db.t1 on 1 = 1",
 ]
 BAD = {"unsupported": "create index ix on db.s1 (c1)", "unparsable": "selec * frm db.s1 wher"}
 
